@@ -1,4 +1,5 @@
 import ChfVerif.Lemmas.BerInt
+import ChfVerif.Lemmas.BerRoundTrip
 import ChfVerif.Lemmas.BerSafe
 import ChfVerif.Lemmas.BerMarshalSafe
 import ChfVerif.Gen.Schema
@@ -9,13 +10,16 @@ import ChfVerif.Gen.Schema
   value, if `marshal` returns octets then `unmarshal` of those octets into the same type with the same
   parameters returns that value.
 
-  What is proved here, for all inputs, is the *content* level of that law — the part the two directions
-  compute by different arithmetic (C05_partial_*): INTEGER / ENUMERATED contents of every int64,
-  BIT STRING contents of every bit length, BOOLEAN, and the error outcome of unsupported constructs in both
-  directions.  What is not proved is the structural induction through SEQUENCE / SET / SEQUENCE OF / CHOICE
-  member matching (`decodeSeq`, `decodeSet`, `decodeAlt` against `marshalFields`, `marshalAlt`): for that
-  part `RoundTrip` is decided per run by the correspondence (model = implementation on every generated
-  round trip, so a counterexample of the model is a counterexample of the code) and the DeepEqual oracle.
+  What is proved here, for all inputs:
+  * the full law for every primitive type under every tagging (untagged, IMPLICIT, EXPLICIT; low and high tag
+    numbers; short and long lengths): C05_integer, C05_enumerated, C05_boolean, C05_octet_string, C05_string,
+    C05_bit_string, C05_null, and C05_pointer (pointers are transparent) — through the real header parser
+    (C05_header), the tag check and the EXPLICIT unwrapping of the decoder model;
+  * the content-level lemmas they rest on (C05_partial_*), and the error outcome of unsupported constructs.
+  What is not proved is the structural induction through SEQUENCE / SET / SEQUENCE OF / CHOICE member matching
+  (`decodeSeq`, `decodeSet`, `decodeAlt` against `marshalFields`, `marshalAlt`): for that part `RoundTrip` is
+  decided per run by the correspondence (model = implementation on every generated round trip, so a
+  counterexample of the model is a counterexample of the code) and the DeepEqual oracle.
 -/
 namespace Chf.Props.C05
 open Chf Chf.Ber
@@ -73,5 +77,111 @@ example : parseSigned (intBytes (-9223372036854775808)) = .ok (-9223372036854775
   C05_partial_integer _ (by decide)
 example : parseBitString (((8 - 16 % 8) % 8) :: [170, 85]) = .ok (.bits [170, 85] 16) :=
   C05_partial_bits _ _ (by decide) (by decide)
+
+
+/-! ### the full round trip for every primitive type, with any tagging
+
+  `marshal` of a primitive is `finish p false <universal tag> <contents>`; the lemmas `rt_*` of
+  Lemmas/BerRoundTrip.lean show that `unmarshal` — through parseTagAndLength (short and long tag numbers, short
+  and long lengths), the tag check, EXPLICIT unwrapping — reads the value back.  Tag numbers below 2^63 (the
+  decoder accumulates them in 64 bits and gives up after 10 octets) and contents shorter than 2^63 octets. -/
+
+open Chf.Ber in
+/-- INTEGER of either Go width, every value of that width, untagged / IMPLICIT / EXPLICIT with any tag number -/
+theorem C05_integer (w : Nat) (hw : w = 32 ∨ w = 64) (p : Params) (i : Int)
+    (h : -(2 : Int) ^ (w - 1) ≤ i ∧ i < (2 : Int) ^ (w - 1))
+    (hn : ∀ n, p.tagNumber = some n → n < 9223372036854775808) : RoundTrip (.int w) p (.int i) := by
+  intro b hm
+  rw [marshal] at hm
+  simp only [Res.ok.injEq] at hm
+  subst hm
+  have hi : -9223372036854775808 ≤ i ∧ i ≤ 9223372036854775807 := by
+    rcases hw with rfl | rfl
+    · have h1 : (2:Int) ^ (32 - 1) = 2147483648 := by decide
+      rw [h1] at h; omega
+    · have h1 : (2:Int) ^ (64 - 1) = 9223372036854775808 := by decide
+      rw [h1] at h; omega
+  rw [rt_int w p i hi hn, C05_partial_int_width w i hw h]
+
+open Chf.Ber in
+theorem C05_enumerated (p : Params) (i : Int) (hi : -9223372036854775808 ≤ i ∧ i ≤ 9223372036854775807)
+    (hn : ∀ n, p.tagNumber = some n → n < 9223372036854775808) : RoundTrip .enum p (.int i) := by
+  intro b hm
+  rw [marshal] at hm
+  simp only [Res.ok.injEq] at hm
+  subst hm
+  exact rt_enum p i hi hn
+
+open Chf.Ber in
+theorem C05_boolean (p : Params) (x : Bool) (hn : ∀ n, p.tagNumber = some n → n < 9223372036854775808) :
+    RoundTrip .bool p (.bool x) := by
+  intro b hm
+  rw [marshal] at hm
+  simp only [Res.ok.injEq] at hm
+  subst hm
+  exact rt_bool p x hn
+
+open Chf.Ber in
+theorem C05_octet_string (p : Params) (bs : Bytes) (hn : ∀ n, p.tagNumber = some n → n < 9223372036854775808)
+    (hlen : bs.length + 44 < 9223372036854775808) : RoundTrip .octets p (.bytes bs) := by
+  intro b hm
+  rw [marshal] at hm
+  simp only [Res.ok.injEq] at hm
+  subst hm
+  exact rt_octets p bs hn hlen
+
+open Chf.Ber in
+/-- character strings of every kind (the universal tag comes from the utf8/ia5/graphic parameter or the Go type) -/
+theorem C05_string (d : Nat) (p : Params) (bs : Bytes) (hn : ∀ n, p.tagNumber = some n → n < 9223372036854775808)
+    (hd : stringTagOf p d < 9223372036854775808) (hlen : bs.length + 44 < 9223372036854775808) :
+    RoundTrip (.str d) p (.str bs) := by
+  intro b hm
+  rw [marshal] at hm
+  simp only [Res.ok.injEq] at hm
+  subst hm
+  exact rt_str d p bs hn hd hlen
+
+open Chf.Ber in
+/-- BIT STRING of every bit length whose octets are exactly the ones the length needs -/
+theorem C05_bit_string (p : Params) (bs : Bytes) (n : Nat) (hn : ∀ k, p.tagNumber = some k → k < 9223372036854775808)
+    (hlen : bs.length + 45 < 9223372036854775808) (h1 : n ≤ 8 * bs.length) (h2 : 8 * bs.length < n + 8) :
+    RoundTrip .bits p (.bits bs n) := by
+  intro b hm
+  rw [marshal] at hm
+  simp only [Res.ok.injEq] at hm
+  subst hm
+  exact rt_bits p bs n hn hlen h1 h2
+
+open Chf.Ber in
+theorem C05_null (p : Params) (hn : ∀ n, p.tagNumber = some n → n < 9223372036854775808) :
+    RoundTrip .null p (.null true) := by
+  intro b hm
+  rw [marshal] at hm
+  simp only [Res.ok.injEq] at hm
+  subst hm
+  exact rt_null p hn
+
+open Chf.Ber in
+/-- pointers are transparent: a present pointer round-trips iff what it points to does -/
+theorem C05_pointer (t : Ty) (p : Params) (v : Val) (hv : v ≠ .nil) (h : RoundTrip t p v) :
+    RoundTrip (.ptr t) p v := by
+  intro b hm
+  have e1 : marshal (.ptr t) p v = marshal t p v := by simp [marshal, hv]
+  rw [e1] at hm
+  rw [unmarshal]
+  exact h b hm
+
+/-- the header on its own: parseTagAndLength reads back what appendTagAndLen wrote, for every class, every tag
+    number below 2^63 and every length below 2^63, whatever follows -/
+theorem C05_header (cls : Nat) (c : Bool) (tag len : Nat) (rest : Bytes)
+    (hcls : cls < 4) (htag : tag < 9223372036854775808) (hlen : len < 9223372036854775808)
+    (hfit : len ≤ (Chf.Ber.header cls c tag len ++ rest).length) :
+    Chf.Ber.parseTagAndLength (Chf.Ber.header cls c tag len ++ rest) =
+      .ok ⟨cls, c, tag, len, (Chf.Ber.header cls c tag len).length⟩ :=
+  Chf.Ber.parse_header cls c tag len rest hcls htag hlen hfit
+
+/-- non-vacuity: an EXPLICIT [40] INTEGER -129 round-trips by the theorem -/
+example : RoundTrip (.int 64) ⟨false, some 40, true, false, false, 0⟩ (.int (-129)) :=
+  C05_integer 64 (Or.inr rfl) _ _ (by decide) (by intro n h; cases h; decide)
 
 end Chf.Props.C05
